@@ -10,8 +10,10 @@ from __future__ import annotations
 import io
 import json
 import os
+import re
 import shutil
 import tempfile
+import time
 from fractions import Fraction
 from pathlib import Path
 
@@ -19,6 +21,10 @@ import common as H
 from common import Case
 
 from nutree.fs import FileSystemEntry, FileSystemTree, load_tree_from_fs
+
+# FileSystemEntry.__repr__ renders the mtime in local time: the model is UTC
+os.environ["TZ"] = "UTC"
+time.tzset()
 
 # ---------------------------------------------------------------------------
 # names: groups of names whose relative order is easy to get wrong
@@ -350,6 +356,28 @@ class Prop:
             data = [[k, ("nm" if (k == "n" and rng.random() < 0.85) else rng.choice(vals))] for k in keys]
             yield dict(kind="deser", data=data)
         yield from self._sort_descs(tier, rng)
+        yield from self._repr_descs(tier, rng)
+
+    def _repr_descs(self, tier, rng):
+        special = ["it's", 'say "x"', "both'\"", "tab\there", "\x7f", "\x01\x1f", "\xa0", "\xad", "\u200b", "\U000e0001",
+                   "\udcff", "\\", "new\nline", "\r", "", "caf\u00e9", "\u540d\u524d", "\U0001f600", "\u0378", "x" * 40]
+        sizes = [0, 5, 999, 1000, 12345, 123456, 1234567, 10 ** 12, -1, -1234, 100, 1000000]
+        n = 150 if tier == "quick" else 1500
+        for i in range(n):
+            r = rng.random()
+            if r < 0.55:
+                sec = rng.randrange(0, 2_000_000_000)
+            elif r < 0.9:
+                sec = rng.randrange(-62_135_596_800 + 3 * 86400, 253_402_300_800 - 3 * 86400)
+            elif r < 0.95:
+                sec = rng.choice([951_782_400 + rng.randrange(-86400, 86400), -2_203_891_200 + rng.randrange(-86400, 86400),
+                                  4_107_542_400 + rng.randrange(-86400, 86400), 68_169_600 + rng.randrange(-86400, 86400)])
+            else:
+                sec = rng.choice([300_000_000_000, -70_000_000_000, 253_402_300_800 + 10 * 86400, -62_135_596_800 - 10 * 86400])
+            is_dir = rng.random() < 0.2
+            yield dict(kind="repr", name=rng.choice(special + ALL_NAMES), is_dir=is_dir,
+                       size=None if is_dir else rng.choice(sizes + [rng.randrange(10 ** rng.randint(1, 9))]),
+                       mdate=None if (is_dir or rng.random() < 0.05) else [sec, rng.randrange(8) if rng.random() < 0.5 else 0])
 
     def _sort_descs(self, tier, rng):
         n = 60 if tier == "quick" else 500
@@ -390,7 +418,61 @@ class Prop:
             return self.run_entry(desc)
         if k in ("sort", "pathsort"):
             return self.run_sort(desc)
+        if k == "repr":
+            return self.run_repr(desc)
         return self.run_deser(desc)
+
+    def run_repr(self, desc) -> Case:
+        """FileSystemEntry.__repr__ (= node.name) against the model; oracle = parsing the text back."""
+        import ast
+        import calendar
+
+        name, is_dir, size, mdate = desc["name"], desc["is_dir"], desc["size"], desc["mdate"]
+        mval = None if mdate is None else mdate[0] + mdate[1] / 8
+        e = FileSystemEntry(name, is_dir=is_dir, size=size, mdate=mval)
+        try:
+            txt = repr(e)
+        except (AssertionError, ValueError, OverflowError, OSError):
+            txt = None
+        fail = None
+        if txt is not None:
+            t = FileSystemTree("t")
+            if t.add(e).name != txt:
+                fail = "repr: node.name differs from repr(node.data)"
+        if fail:
+            pass
+        elif is_dir:
+            if txt != "[" + name + "]":
+                fail = f"repr: folder {name!r} shown as {txt!r}"
+        elif mdate is None:
+            if txt is not None:
+                fail = "repr: a file without mdate has a repr"
+        else:
+            whole = mdate[0]                       # floor of the timestamp (eighths are >= 0)
+            in_range = -62_135_596_800 <= whole < 253_402_300_800
+            if txt is None:
+                if in_range:
+                    fail = f"repr: raises for the representable time {whole}"
+            else:
+                m = re.match(r"^(?P<name>.*), (?P<size>-?\d{1,3}(?:,\d{3})*) bytes, (?P<dt>\d{4}-\d\d-\d\d \d\d:\d\d:\d\d)$", txt, re.S)
+                if not m:
+                    fail = f"repr: {txt!r} does not have the shape <name>, <size> bytes, <date>"
+                elif ast.literal_eval(m.group("name")) != name:
+                    fail = f"repr: the quoted name {m.group('name')!r} does not evaluate to {name!r}"
+                elif int(m.group("size").replace(",", "")) != size:
+                    fail = f"repr: size {m.group('size')!r} is not {size}"
+                else:
+                    y, mo, d = (int(x) for x in m.group("dt")[:10].split("-"))
+                    hh, mi, ss = (int(x) for x in m.group("dt")[11:].split(":"))
+                    if calendar.timegm((y, mo, d, hh, mi, ss, 0, 0, 0)) != whole or not in_range:
+                        fail = f"repr: date {m.group('dt')!r} is not second {whole}"
+        printable = sorted({ord(c) for c in name if ord(c) > 127 and c.isprintable()})
+        mr = None if mval is None else list(float(mval).as_integer_ratio())
+        coq = (f"(CRepr {H.coq_list(H.z(c) for c in printable)} {H.coq_text(name)} {H.coq_bool(is_dir)} "
+               f"{H.coq_opt(size, H.z)} {H.coq_opt(mr, coq_mt)})")
+        return Case(desc=desc, coq_input=coq, impl_obs=[] if txt is None else [txt], oracle_fail=fail, nontrivial=True,
+                    key=H.digest(desc), stats=dict(kind="repr", is_dir=is_dir, has_text=txt is not None,
+                                                   ascii=all(ord(c) < 128 for c in name)))
 
     def run_sort(self, desc) -> Case:
         """CPython's sorted() with the two key functions of fs.py against the model's stable insertion sort."""
